@@ -729,7 +729,12 @@ impl<'a> Gen<'a> {
             let e = self.expr(ret, 2);
             body.push(Stmt::Expr(Expr::If { cond: Box::new(c), cons: vec![Stmt::Return(e)], alt: None }));
         }
-        if *ret == Ty::Null {
+        if *ret == Ty::Null && self.r.chance(1, 4) {
+            // a procedure whose last statement is an if without else that returns: the call yields 0 or null
+            let c = self.expr(&Ty::Bool, 2);
+            let inner = Stmt::Expr(Expr::If { cond: Box::new(c), cons: vec![Stmt::Return(Expr::Int(0))], alt: None });
+            body.push(if self.r.chance(1, 3) { Stmt::Block(vec![inner]) } else { inner });
+        } else if *ret == Ty::Null {
             // a procedure: the body ends in a declaration (or in nothing at all), so the call yields null
             if self.r.chance(2, 3) || body.is_empty() && self.r.chance(1, 2) {
                 let init = self.expr(&Ty::Int, 2);
